@@ -152,3 +152,36 @@ func VerifC04_Project() {
 	verifQuiesce()
 	verifReach("end")
 }
+
+// C04 (the exit code is the triggering command's own): p0 exits with 0 and carries exit_on_end
+// or exit_on_failure; p2 waits for p0 to become healthy and gives up when p0 ends. Whatever the
+// order in which p0's end and p2's giving up are processed, the project reports p0's own exit
+// code: success.
+func VerifC04_ReadyWaiter() {
+	w := vInit()
+	vBindHealth()
+	p0 := vConf("p0", nil)
+	p0.ReadinessProbe = &health.Probe{Exec: &health.ExecProbe{Command: "check"}}
+	trigger := verifChooseK("p0.flag", 2) == 0
+	if trigger {
+		verifShape("p0:exit_on_end")
+		p0.RestartPolicy.ExitOnEnd = true
+	} else {
+		verifShape("p0:exit_on_failure")
+		p0.RestartPolicy.Restart = types.RestartPolicyExitOnFailure
+	}
+	p2 := vConf("p2", map[string]string{"p0": types.ProcessConditionHealthy})
+	w.behav["p0"] = &vBehav{codes: []int{0}}
+	w.behav["p2"] = &vBehav{codes: []int{0}}
+	r := vRunner(vProject(p0, p2), false)
+	err := r.Run()
+	verifAssert("project.succeeds", err == nil)
+	st, e := r.GetProcessState("p0")
+	if e != nil {
+		verifFail("no.state")
+	} else {
+		verifAssert("p0.reports.its.own.exit.code", st.ExitCode == 0)
+	}
+	verifQuiesce()
+	verifReach("end")
+}
